@@ -546,6 +546,10 @@ def _mk_quote(t):
     return [code, ci, kk, bid, bid + spread, bsz, asz, dt]
 
 
+def _weighted(strategy, k):
+    return [strategy.map(list) for _ in range(k)]
+
+
 @st.composite
 def histories(draw, tier="quick"):
     nchains = draw(st.sampled_from([0, 1, 1, 1, 2]))
@@ -579,12 +583,13 @@ def histories(draw, tier="quick"):
                        st.floats(min_value=0.0, max_value=100.0, allow_nan=False))
     size = st.one_of(st.none(), st.integers(1, 10000), st.floats(min_value=0.5, max_value=1e6, allow_nan=False))
     quote = st.tuples(st.just("q"), ci, st.sampled_from([0, 0, 1]), price, spread, size, size,
-                      st.integers(0, 86400)).map(_mk_quote)
-    disc = st.tuples(st.just("d"), ci, st.integers(0, 7), st.sampled_from([0, 0, 1]), st.integers(0, 86400)).map(list)
+                      st.sampled_from([0, 1, 60, 86400])).map(_mk_quote)
+    disc = st.tuples(st.just("d"), ci, st.integers(0, 7), st.sampled_from([0, 0, 1]), st.sampled_from([0, 1, 60, 86400])).map(list)
     setclock = st.tuples(st.just("c"), clock).map(list)
     qty = st.sampled_from([1, -1, 0, 0.5, -0.25, 1e-12, -1e-12, 1000, -7, 0.0, -0.0])
     query = st.tuples(st.just("k"), ci, st.integers(0, 3), qty).map(list)
-    op = st.one_of(quote, quote, quote, quote, disc, setclock, query, query)
+    # st.one_of drops repeated strategy objects, so weights are given with distinct wrappers
+    op = st.one_of(*(_weighted(quote, 5) + _weighted(disc, 1) + _weighted(setclock, 1) + _weighted(query, 2)))
     lo = draw(st.sampled_from([0, 6, 12, 20, 30]))
     ops = draw(st.lists(op, min_size=lo, max_size=40))
     view = draw(st.sampled_from([3, 0, 1, 2, 3]))
